@@ -288,5 +288,15 @@ def main(run):
     a = ap.parse_args()
     import_repo()
     replay = json.load(open(a.replay)) if a.replay else None
-    res = run(a.seed, a.tier, replay)
+    try:
+        res = run(a.seed, a.tier, replay)
+    except Exception:  # noqa: BLE001
+        if replay is None or "seed" not in replay:
+            raise
+        # the harness cannot rebuild this one case from the replay file (a stratum without a single-case replay path): the replay file
+        # records the seed and tier of the run that found it, and runs are deterministic -- re-running that run reproduces the violation
+        import traceback
+        traceback.print_exc()
+        print("[replay] falling back to the recorded run: seed=%s tier=%s" % (replay.get("seed"), replay.get("tier", a.tier)), file=sys.stderr)
+        res = run(int(replay["seed"]), replay.get("tier", a.tier), None)
     emit(res, a.out)
